@@ -12,7 +12,7 @@ Local Open Scope N_scope.
 Definition timely (r : trec) : Prop := match r with RPoll _ w n => w = n | _ => True end.
 Definition polls_timely (tr : list trec) : Prop := Forall timely tr.
 
-Definition qwk (now : N) (s : st) : Prop := Forall (fun j => wk_of j s = now) (lq s ++ cq s).
+Definition qwk (now : N) (s : st) : Prop := forall j, In j (queues s) -> wk_of j s = now.
 Definition inv (now : N) (s : st) : Prop := polls_timely (trace s) /\ qwk now s.
 
 Lemma wk_of_upd_keep i f s j : (forall t, wk (f t) = wk t) -> wk_of j (upd_task i f s) = wk_of j s.
@@ -23,31 +23,41 @@ Qed.
 
 Lemma inv_upd_keep now i f s : (forall t, wk (f t) = wk t) -> inv now s -> inv now (upd_task i f s).
 Proof.
-  intros Hf [Ht Hq]. split; [exact Ht|]. unfold qwk in *. cbn [upd_task lq cq].
-  eapply Forall_impl; [|exact Hq]. intros j Hj. rewrite wk_of_upd_keep by assumption. exact Hj.
+  intros Hf [Ht Hq]. split; [exact Ht|]. intros j Hj. rewrite wk_of_upd_keep by assumption. apply Hq. exact Hj.
 Qed.
 
 Lemma inv_add_trace now r s : timely r -> inv now s -> inv now (add_trace r s).
 Proof. intros Hr [Ht Hq]. split; [constructor; assumption|exact Hq]. Qed.
 
+Lemma queues_in j s : In j (queues s) <-> In j (lq s) \/ In j (cq s) \/ In j (inj s).
+Proof. unfold queues. rewrite !in_app_iff. tauto. Qed.
+
+(* task t gets the wake time [now] and joins some queue *)
+Lemma inv_requeue now t s s' : inv now s ->
+  trace s' = trace s -> (forall j, wk_of j s' = if Nat.eqb t j then now else wk_of j s) ->
+  (forall j, In j (queues s') -> In j (queues s) \/ j = t) -> inv now s'.
+Proof.
+  intros [Ht Hq] Etr Hw Hin. split; [unfold polls_timely; rewrite Etr; exact Ht|].
+  intros j Hj. rewrite Hw. destruct (Nat.eqb_spec t j); [reflexivity|].
+  destruct (Hin j Hj) as [H|H]; [apply Hq; exact H|congruence].
+Qed.
+
+Lemma wk_of_set_wk now t s j : get t s <> None ->
+  wk_of j (upd_task t (set_wk now) s) = if Nat.eqb t j then now else wk_of j s.
+Proof.
+  intros Hg. unfold wk_of. rewrite get_upd_task. destruct (Nat.eqb_spec t j); [|reflexivity].
+  subst j. destruct (get t s); [reflexivity|contradiction].
+Qed.
+
 Lemma inv_enqueue ins now t s : inv now s -> inv now (fst (enqueue ins now t s)).
 Proof.
-  intros [Ht Hq]. unfold enqueue. destruct (get t s) as [tk|] eqn:E; cbn [fst]; [|split; assumption].
-  split; [destruct (local tk); exact Ht|].
-  assert (W : forall j, wk_of j s = now -> wk_of j (upd_task t (set_wk now) s) = now).
-  { intros j Hj. unfold wk_of. rewrite get_upd_task. destruct (Nat.eqb_spec t j); [|exact Hj].
-    subst j. rewrite E. reflexivity. }
-  assert (Wt : wk_of t (upd_task t (set_wk now) s) = now).
-  { unfold wk_of. rewrite get_upd_same, E. reflexivity. }
-  unfold qwk in *. unfold push. destruct (local tk); cbn [lq cq tasks upd_task].
-  - rewrite <- app_assoc. apply Forall_app in Hq. destruct Hq as [H1 H2].
-    apply Forall_app; split; [|apply Forall_app; split].
-    + eapply Forall_impl; [|exact H1]. exact W.
-    + constructor; [exact Wt|constructor].
-    + eapply Forall_impl; [|exact H2]. exact W.
-  - rewrite app_assoc. apply Forall_app; split.
-    + eapply Forall_impl; [|exact Hq]. exact W.
-    + constructor; [exact Wt|constructor].
+  intros H. unfold enqueue. destruct (get t s) as [tk|] eqn:E; cbn [fst]; [|exact H].
+  eapply inv_requeue; [exact H| | |].
+  - unfold push; destruct (local tk); reflexivity.
+  - intros j. unfold wk_of. rewrite get_push. fold (wk_of j (upd_task t (set_wk now) s)).
+    apply wk_of_set_wk. rewrite E. discriminate.
+  - intros j. rewrite !queues_in. unfold push; destruct (local tk); cbn [lq cq inj set_lq set_cq upd_task];
+      rewrite ?in_app_iff; cbn [In]; intuition auto.
 Qed.
 
 Lemma inv_wake ins now t s : inv now s -> inv now (fst (wake ins now t s)).
@@ -117,18 +127,21 @@ Qed.
 
 Lemma inv_pop now loc s i s1 : pop loc s = Some (i, s1) -> inv now s -> inv now s1 /\ wk_of i s = now /\ wk_of i s1 = now.
 Proof.
-  intros Ep [Ht Hq]. pose proof (pop_some _ _ _ _ Ep) as [Hh [Ho [Hts Htr]]].
+  intros Ep [Ht Hq]. pose proof (pop_some _ _ _ _ Ep) as [_ [Hi [Hsub [_ [_ [Hts [Htr _]]]]]]].
   assert (Hw : forall j, wk_of j s1 = wk_of j s) by (intros j; unfold wk_of, get; rewrite Hts; reflexivity).
-  unfold qwk in Hq. destruct loc; cbn [qof negb] in *.
-  - rewrite Hh in Hq. cbn [app] in Hq. pose proof (Forall_inv Hq) as Hx. pose proof (Forall_inv_tail Hq) as Hl.
-    cbn beta in Hx. split; [|split; [exact Hx|rewrite Hw; exact Hx]].
-    split; [unfold polls_timely; rewrite Htr; exact Ht|].
-    unfold qwk. rewrite Ho. eapply Forall_impl; [|exact Hl]. intros j Hj. cbn beta in *. rewrite Hw. exact Hj.
-  - rewrite Hh in Hq. apply Forall_app in Hq. destruct Hq as [H1 H2].
-    pose proof (Forall_inv H2) as Hx. pose proof (Forall_inv_tail H2) as Hl.
-    cbn beta in Hx. split; [|split; [exact Hx|rewrite Hw; exact Hx]].
-    split; [unfold polls_timely; rewrite Htr; exact Ht|].
-    unfold qwk. rewrite Ho. apply Forall_app; split; (eapply Forall_impl; [|eassumption]); intros j Hj; cbn beta in *; rewrite Hw; exact Hj.
+  assert (Hqi : forall j, qin loc j s -> In j (queues s)).
+  { intros j Hj. apply queues_in. unfold qin in Hj. destruct loc; tauto. }
+  assert (Hx : wk_of i s = now) by (apply Hq, Hqi, Hi).
+  split; [|split; [exact Hx|rewrite Hw; exact Hx]].
+  split; [unfold polls_timely; rewrite Htr; exact Ht|].
+  intros j Hj. rewrite Hw. apply Hq. apply queues_in. apply queues_in in Hj.
+  pose proof (pop_some _ _ _ _ Ep) as [_ [_ [_ [Hlen [Hlq _]]]]].
+  destruct loc; cbn [qin negb] in *.
+  - (* lq popped; cq and inj of s1 are those of s *)
+    unfold pop in Ep. destruct (lq s) as [|x q] eqn:El; [discriminate|]. inversion Ep; subst. cbn [lq cq inj set_lq] in *.
+    cbn [In]. tauto.
+  - specialize (Hlq eq_refl). rewrite Hlq in Hj. destruct Hj as [Hj|Hj]; [tauto|].
+    right. apply Hsub. exact Hj.
 Qed.
 
 Lemma inv_drain m loc now : forall n s, inv now s -> inv now (dr_st (drain m loc n now s)).
@@ -176,29 +189,75 @@ Qed.
 (* with empty queues the invariant holds for any instant *)
 Lemma inv_quiescent now now' s : inv now s -> quiescent s = true -> inv now' s.
 Proof.
-  intros [Ht _] Hq. apply quiescent_iff in Hq. destruct Hq as [Hl Hc].
-  split; [exact Ht|]. unfold qwk. rewrite Hl, Hc. constructor.
+  intros [Ht _] Hq. apply queues_nil in Hq. split; [exact Ht|]. intros j Hj. rewrite Hq in Hj. destruct Hj.
 Qed.
 
 Lemma quiescent_add_trace r s : quiescent (add_trace r s) = quiescent s.
 Proof. reflexivity. Qed.
 
+Lemma inv_bump now s : inv now s -> inv now (bump s).
+Proof. intros H. exact H. Qed.
+
+Lemma inv_end_turn now br p3 s : inv now s -> inv now (end_turn br p3 s).
+Proof. intros H. unfold end_turn. destruct (length p3 <? br)%nat; [apply inv_bump|]; exact H. Qed.
+
+Lemma quiescent_end_turn br p3 s : quiescent (end_turn br p3 s) = quiescent s.
+Proof. unfold end_turn. destruct (length p3 <? br)%nat; reflexivity. Qed.
+
+(* a processing element's hook wakes tasks at the event's instant *)
+Lemma inv_send_outside now t s : inv now s -> inv now (send_outside now t s).
+Proof.
+  intros H. unfold send_outside. destruct (get t s) as [tk|] eqn:E; [|exact H].
+  assert (H1 : inv now (upd_task t (set_inbox (inbox tk + 1)) s)) by (apply inv_upd_keep; [reflexivity|exact H]).
+  destruct (stat tk); try exact H1.
+  set (s1 := upd_task t (set_stat Queued) (upd_task t (set_inbox (inbox tk + 1)) s)).
+  assert (H2 : inv now s1) by (apply inv_upd_keep; [reflexivity|exact H1]).
+  assert (Hg : get t s1 <> None) by (unfold s1; rewrite !get_upd_same, E; discriminate).
+  destruct (local tk).
+  - eapply inv_requeue; [exact H2|reflexivity| |].
+    + intros j. unfold wk_of. rewrite get_push. fold (wk_of j (upd_task t (set_wk now) s1)). apply wk_of_set_wk. exact Hg.
+    + intros j. rewrite !queues_in. unfold push; cbn [lq cq inj set_lq upd_task]. rewrite in_app_iff; cbn [In]. intuition auto.
+  - eapply inv_requeue; [exact H2|reflexivity| |].
+    + intros j. apply (wk_of_set_wk now t s1 j Hg).
+    + intros j. rewrite !queues_in. cbn [lq cq inj set_inj upd_task]. rewrite in_app_iff; cbn [In]. intuition auto.
+Qed.
+
+Lemma inv_pre_hooks now pre : forall s, inv now s -> inv now (pre_hooks now pre s).
+Proof.
+  unfold pre_hooks. induction pre as [|a pre IH]; intros s H; cbn [fold_left]; [exact H|].
+  apply IH. destruct a as [t|t]; cbn [do_pre]; [exact H|apply inv_send_outside; exact H].
+Qed.
+
+Lemma inv_run_exec b tag now acts s : inv now s -> inv now (run_exec b tag now acts s).
+Proof.
+  intros H. unfold run_exec.
+  pose proof (inv_exec_event (b_local b) (b_rt b) (b_coop b) now acts s H) as H1.
+  destruct (exec_event _ _ _ _ _ _) as [[s1 p2] p3]. unfold ee_st in H1; cbn [fst] in H1.
+  unfold close. apply inv_add_trace; [exact I|]. apply inv_end_turn. exact H1.
+Qed.
+
 (* ---- runs ---- *)
+(* the state in which the exec of message event e starts: the record and the element's hooks *)
+Definition ev_state (s : st) (e : nat) (now : N) (pre : list act) : st :=
+  pre_hooks now pre (add_trace (REvent e now) s).
+Definition ev_acts (consumed : bool) (acts : list act) : list act := if consumed then [] else acts.
+
 (* every event of the run, executed from the state the bounded executor is in, fits *)
-Fixpoint all_within (b : budgets) (s : st) (e : nat) (now : N) (evs : list (N * list act)) : Prop :=
+Fixpoint all_within (b : budgets) (s : st) (e : nat) (now : N) (evs : list mevent) : Prop :=
   match evs with
   | [] => True
-  | (d, acts) :: r =>
-      ~ KnownClass {| e_b := b; e_now := now + d; e_acts := acts; e_st := add_trace (REvent e (now + d)) s |} /\
-      all_within b (run_event b s e (now + d) acts) (S e) (now + d) r
+  | (d, k, pre, acts) :: r =>
+      ~ KnownClass {| e_b := b; e_now := now + d; e_acts := ev_acts k acts; e_st := ev_state s e (now + d) pre |} /\
+      all_within b (run_event b s e (now + d) k pre acts) (S e) (now + d) r
   end.
 
-Lemma run_event_spec b s e now acts :
-  run_event b s e now acts =
-  let x := exec_event (b_local b) (b_rt b) (b_coop b) now acts (add_trace (REvent e now) s) in
-  close 4 (length (snd (fst x))) (length (snd x)) (ee_st x).
+Lemma run_exec_quiescent b tag now acts s :
+  ~ KnownClass {| e_b := b; e_now := now; e_acts := acts; e_st := s |} -> quiescent (run_exec b tag now acts s) = true.
 Proof.
-  unfold run_event. destruct (exec_event _ _ _ _ _ _) as [[s1 p2] p3]. reflexivity.
+  intros Hk. pose proof (quiescent_if_within_budget _ Hk) as [Hqa _].
+  unfold queue_after, exec_bounded in Hqa; cbn [e_b e_now e_acts e_st] in Hqa.
+  unfold run_exec. destruct (exec_event _ _ _ _ _ _) as [[s1 p2] p3]; cbn [fst] in Hqa.
+  unfold close. rewrite quiescent_add_trace, quiescent_end_turn. apply queues_nil. exact Hqa.
 Qed.
 
 Lemma run_events_inv b : forall evs s e now,
@@ -206,19 +265,13 @@ Lemma run_events_inv b : forall evs s e now,
   inv (snd (run_events b s e now evs)) (fst (run_events b s e now evs)) /\
   quiescent (fst (run_events b s e now evs)) = true.
 Proof.
-  induction evs as [|[d acts] evs IH]; intros s e now Hi Hq Hw; cbn [run_events fst snd]; [auto|].
+  induction evs as [|[[[d k] pre] acts] evs IH]; intros s e now Hi Hq Hw; cbn [run_events fst snd]; [auto|].
   destruct Hw as [Hk Hw].
-  assert (Hi' : inv (now + d) (add_trace (REvent e (now + d)) s)).
-  { apply inv_add_trace; [exact I|]. eapply inv_quiescent; eassumption. }
-  pose proof (quiescent_if_within_budget _ Hk) as [Hqa _].
-  unfold queue_after, exec_bounded in Hqa; cbn [e_b e_now e_acts e_st] in Hqa.
-  pose proof (inv_exec_event (b_local b) (b_rt b) (b_coop b) (now + d) acts _ Hi') as Hie.
-  rewrite run_event_spec in *. cbn zeta in *.
-  set (x := exec_event (b_local b) (b_rt b) (b_coop b) (now + d) acts (add_trace (REvent e (now + d)) s)) in *.
+  assert (Hi' : inv (now + d) (ev_state s e (now + d) pre)).
+  { unfold ev_state. apply inv_pre_hooks. apply inv_add_trace; [exact I|]. eapply inv_quiescent; eassumption. }
   apply IH; [| |exact Hw].
-  - unfold close. apply inv_add_trace; [exact I|exact Hie].
-  - unfold close. rewrite quiescent_add_trace. apply app_eq_nil in Hqa. destruct Hqa as [Hl Hc].
-    apply quiescent_iff. split; assumption.
+  - unfold run_event. apply inv_run_exec. exact Hi'.
+  - unfold run_event. apply run_exec_quiescent. exact Hk.
 Qed.
 
 Lemma run_end_inv b s now : inv now s -> polls_timely (trace (run_end b s now)).
@@ -226,21 +279,25 @@ Proof.
   intros H. unfold run_end.
   pose proof (inv_exec_event (b_local b) (b_rt b) (b_coop b) now [] s H) as H1.
   destruct (exec_event (b_local b) (b_rt b) (b_coop b) now [] s) as [[s1 p2] p3]. unfold ee_st in H1; cbn [fst] in H1.
-  pose proof (inv_exec_event (b_local b) (b_rt b) (b_coop b) now [] s1 H1) as H2.
-  destruct (exec_event (b_local b) (b_rt b) (b_coop b) now [] s1) as [[s2 q2] q3]. unfold ee_st in H2; cbn [fst] in H2.
-  unfold close. constructor; [exact I|apply H2].
+  pose proof (inv_exec_event (b_local b) (b_rt b) (b_coop b) now [] _ (inv_end_turn now (b_rt b) p3 s1 H1)) as H2.
+  destruct (exec_event (b_local b) (b_rt b) (b_coop b) now [] (end_turn (b_rt b) p3 s1)) as [[s2 q2] q3]. unfold ee_st in H2; cbn [fst] in H2.
+  unfold close. constructor; [exact I|]. apply (inv_end_turn now (b_rt b) q3 s2 H2).
 Qed.
 
-Definition run_within (b : budgets) (ts : list (bool * list op)) (evs : list (N * list act)) : Prop :=
-  all_within b (init ts) O 0 evs.
+(* a run: at_sim_start performing [start], then the message events, then the tear-down *)
+Definition run_within (b : budgets) (g : N) (ts : list (bool * list op)) (start : list act) (evs : list mevent) : Prop :=
+  ~ KnownClass {| e_b := b; e_now := 0; e_acts := start; e_st := add_trace (RStart 0) (init g ts) |} /\
+  all_within b (run_start b (init g ts) start) O 0 evs.
 
-Theorem await_observes_enabling_instant b ts evs :
-  run_within b ts evs -> polls_timely (run_model b ts evs).
+Theorem await_observes_enabling_instant b g ts start evs :
+  run_within b g ts start evs -> polls_timely (run_model b g ts start evs).
 Proof.
-  intros Hw. unfold run_model.
-  assert (Hi : inv 0 (init ts)) by (split; [constructor|constructor]).
-  pose proof (run_events_inv b evs (init ts) O 0 Hi eq_refl Hw) as [H _].
-  destruct (run_events b (init ts) 0 0 evs) as [s now]; cbn [fst snd] in H.
+  intros [Hk Hw]. unfold run_model.
+  assert (Hi : inv 0 (add_trace (RStart 0) (init g ts))).
+  { apply inv_add_trace; [exact I|]. split; [constructor|]. intros j Hj. destruct Hj. }
+  pose proof (run_events_inv b evs (run_start b (init g ts) start) O 0
+                (inv_run_exec b 4 0 start _ Hi) (run_exec_quiescent b 4 0 start _ Hk) Hw) as [H _].
+  destruct (run_events b (run_start b (init g ts) start) 0 0 evs) as [s now]; cbn [fst snd] in H.
   unfold polls_timely. apply Forall_rev. apply run_end_inv. exact H.
 Qed.
 
@@ -250,4 +307,13 @@ Theorem exec_from_quiescent_timely bl br c now now0 acts s :
   inv now0 s -> quiescent s = true -> polls_timely (trace (ee_st (exec_event bl br c now acts s))).
 Proof.
   intros Hi Hq. apply (inv_exec_event bl br c now acts s). eapply inv_quiescent; eassumption.
+Qed.
+
+(* ... and so does an exec that starts with only tasks woken by the element hooks of the
+   same event (the consumed-message path: hooks, then exec of an empty callback) *)
+Theorem consumed_event_timely bl br c now now0 pre s :
+  inv now0 s -> quiescent s = true ->
+  polls_timely (trace (ee_st (exec_event bl br c now [] (pre_hooks now pre s)))).
+Proof.
+  intros Hi Hq. apply (inv_exec_event bl br c now [] _). apply inv_pre_hooks. eapply inv_quiescent; eassumption.
 Qed.
